@@ -776,13 +776,20 @@ EGLPNUM_TYPENAME_QSLIB_INTERFACE EGLPNUM_TYPENAME_QSdata *EGLPNUM_TYPENAME_QScop
 	p2->factorok = 0;
 	p2->simplex_display = p->simplex_display;
 	p2->simplex_scaling = p->simplex_scaling;
-	EGLPNUM_TYPENAME_EGlpNumClearVar (p2->pricing->htrigger);
-	*(p2->pricing) = *(p->pricing);
-	/* I added this line because copying the EGLPNUM_TYPENAME_heap (as a pointer) doesn't make any
-	 * sense ! */
-	EGLPNUM_TYPENAME_ILLheap_init (&(p2->pricing->h));
-	EGLPNUM_TYPENAME_EGlpNumInitVar (p2->pricing->htrigger);
-	EGLPNUM_TYPENAME_EGlpNumCopy (p2->pricing->htrigger, p->pricing->htrigger);
+	/* only the pricing *choices* are copied: the norm, scale and partial-pricing arrays of p
+	 * belong to p's current basis (p2->pricing was initialised by QScreate_prob) */
+	p2->pricing->pI_price = p->pricing->pI_price;
+	p2->pricing->pII_price = p->pricing->pII_price;
+	p2->pricing->dI_price = p->pricing->dI_price;
+	p2->pricing->dII_price = p->pricing->dII_price;
+	p2->lp->maxiter = p->lp->maxiter;
+	p2->lp->maxtime = p->lp->maxtime;
+	EGLPNUM_TYPENAME_EGlpNumCopy (p2->uobjlim, p->uobjlim);
+	EGLPNUM_TYPENAME_EGlpNumCopy (p2->lobjlim, p->lobjlim);
+	if (p->qslp->objsense == QS_MAX)
+		EGLPNUM_TYPENAME_ILLsimplex_set_bound (p2->lp, (const EGLPNUM_TYPE *) (&(p2->lobjlim)), QS_MAX);
+	else
+		EGLPNUM_TYPENAME_ILLsimplex_set_bound (p2->lp, (const EGLPNUM_TYPE *) (&(p2->uobjlim)), QS_MIN);
 
 	if (p->qslp->intmarker != 0)
 	{
